@@ -461,6 +461,10 @@ func checkTextAfterStartAction(p *Program, r *Report, urlRule, enumRule string) 
 				}
 				f := sm.ValueForm(last.Cond, env)
 				if u, _ := f.HasUnknown(); u {
+					if dependsOn(last.Cond, textPrm, 0) {
+						why = "a condition on the text (" + p.Pos(last.Cond.Pos()) + ") could not be modelled as a property of the text"
+						return
+					}
 					// a condition on something else: either way
 					walk(b.Succs[0], acc, false)
 					walk(b.Succs[1], acc, false)
@@ -566,6 +570,9 @@ func emptyUnderAssumption(v ssa.Value) bool {
 			}
 		}
 		return len(ph.Edges) > 0
+	}
+	if bo, ok := v.(*ssa.BinOp); ok && bo.Op == token.ADD {
+		return emptyUnderAssumption(bo.X) && emptyUnderAssumption(bo.Y)
 	}
 	return false
 }
